@@ -615,3 +615,38 @@ func loadRangeArgs(call *ssa.Call) (start, limit ssa.Value) {
 	}
 	return
 }
+
+// passesEveryIteration: `at` sits in a counted loop and every iteration of the
+// innermost such loop executes it: from the body's entry neither the loop test
+// nor an exit of the function is reached without passing `at`.  found=false
+// when no counted loop around `at` is recognised.
+func passesEveryIteration(at ssa.Instruction) (every, found bool) {
+	fn := at.Parent()
+	var inner *ssa.BasicBlock
+	for _, hb := range fn.Blocks {
+		iff, ok := terminator(hb).(*ssa.If)
+		if !ok {
+			continue
+		}
+		bo, ok := iff.Cond.(*ssa.BinOp)
+		if !ok || bo.Op != token.LSS || !isInduction(bo.X) {
+			continue
+		}
+		if !hb.Dominates(at.Block()) {
+			continue
+		}
+		if back, _ := reach(siteOf(at), isInstr(iff), nil); !back {
+			continue
+		}
+		if inner == nil || inner.Dominates(hb) {
+			inner = hb
+		}
+	}
+	if inner == nil {
+		return false, false
+	}
+	by, _ := reach(Site{inner.Succs[0], -1}, func(in ssa.Instruction) bool {
+		return in == terminator(inner) || isExit(in)
+	}, newCuts().addInstr(at))
+	return !by, true
+}
